@@ -83,8 +83,14 @@ def cost_ctx(symbolic, fixed=None, coherent=True, with_sloss=True, signed=True, 
     return ctx, costs
 
 
-def costs_dict(costs):
-    return {COST_KEYS[n]: v for n, v in costs.items()}
+def costs_dict(costs, order=0):
+    """Cost mapping keyed by event name; `order` picks one of ten key orders (a mapping has no canonical order)."""
+    names = list(costs)
+    k = order % 5
+    names = names[k:] + names[:k]
+    if (order // 5) % 2:
+        names.reverse()
+    return {COST_KEYS[n]: costs[n] for n in names}
 
 
 def concrete_costs(costs, values):
@@ -154,7 +160,7 @@ class Case:
             "object_tree": self._newick(self.O, {int(k): {"color": v} for k, v in (self.desc.get("ocolors") or {}).items()}),
             "species_tree": self._newick(self.S),
             "leaf_object_species": self.leafmap,
-            "costs": costs_dict(costs),
+            "costs": costs_dict(costs, sum(map(ord, repr(sorted(self.leafmap.items()))))),
         }
         if self.leafsyn is not None:
             ls = dict(self.leafsyn)
@@ -163,8 +169,29 @@ class Case:
             if self.rootsyn is not None:
                 ls[self.O.name[0]] = self.rootsyn
             d["leaf_syntenies"] = ls
-            return SuperReconciliationInput.from_dict(d)
-        return ReconciliationInput.from_dict(d)
+            return self._ctor(SuperReconciliationInput.from_dict(d))
+        return self._ctor(ReconciliationInput.from_dict(d))
+
+    def _ctor(self, inp):
+        """desc['ctor']: the same input handed to the CONSTRUCTOR the way a program may build it: mapping keys in another order than the
+        leaves of the tree, leaf syntenies collected in a defaultdict."""
+        k = self.desc.get("ctor")
+        if not k:
+            return inp
+        import collections
+        import dataclasses
+        import random
+        rng = random.Random(k)
+        los = list(inp.leaf_object_species.items())
+        rng.shuffle(los)
+        kw = {"leaf_object_species": dict(los)}
+        if self.leafsyn is not None:
+            ls = list(inp.leaf_syntenies.items())
+            rng.shuffle(ls)
+            box = collections.defaultdict(list) if k % 2 else {}
+            box.update(ls)
+            kw["leaf_syntenies"] = box
+        return dataclasses.replace(inp, **kw)
 
     def mapping_of(self, out):
         """superrec2 output -> oracle mapping dict (object index -> species index), or error str."""
